@@ -2,13 +2,13 @@
 # usage: verify_refactor.sh <G> <k> — confirms a refactoring delivered in /tmp/rf/<G>/_out/<k>
 # (applies, builds, pinned suite passes) and keeps it as /verif/refactorings/<G>-<k>/.
 set -u
-G=$1; K=$2; WT=/tmp/rf/$G; OUT=$WT/_out/$K
+G=$1; K=$2; WT=${RFROOT:-/tmp/rf}/$G; OUT=$WT/_out/$K
 export GOFLAGS= GOPROXY=off GOSUMDB=off GOTOOLCHAIN=local; unset GOWORK
 cd "$WT" || exit 2
-git checkout -q -- .; git status --short | grep -v '_out/' | awk '{print $2}' | xargs -r rm -rf
+git checkout -q -- .; git status --short | grep -v -E '_out/|ALREADY_DONE.md' | awk '{print $2}' | xargs -r rm -rf
 git apply "$OUT/patch.diff" || { echo "[$G-$K] FAIL: patch does not apply"; exit 1; }
 (go build ./... && cd api && go build ./...) >/dev/null 2>&1 || { echo "[$G-$K] FAIL: build"; git checkout -q -- .; exit 1; }
-/verif/scripts/suite.sh "$WT" > "$OUT/.suite.log" 2>&1 || { echo "[$G-$K] FAIL: suite"; head -5 "$OUT/.suite.log"; git checkout -q -- .; git status --short | grep -v '_out/' | awk '{print $2}' | xargs -r rm -rf; exit 1; }
-git checkout -q -- .; git status --short | grep -v '_out/' | awk '{print $2}' | xargs -r rm -rf
-D=/verif/refactorings/$G-$K; mkdir -p "$D"; cp "$OUT/patch.diff" "$OUT/meta.json" "$D"/
+/verif/scripts/suite.sh "$WT" > "$OUT/.suite.log" 2>&1 || { echo "[$G-$K] FAIL: suite"; head -5 "$OUT/.suite.log"; git checkout -q -- .; git status --short | grep -v -E '_out/|ALREADY_DONE.md' | awk '{print $2}' | xargs -r rm -rf; exit 1; }
+git checkout -q -- .; git status --short | grep -v -E '_out/|ALREADY_DONE.md' | awk '{print $2}' | xargs -r rm -rf
+D=/verif/refactorings/${RFTAG:-}$G-$K; mkdir -p "$D"; cp "$OUT/patch.diff" "$OUT/meta.json" "$D"/
 echo "[$G-$K] OK"
